@@ -14,7 +14,7 @@
 (***************************************************************************)
 EXTENDS Integers, Sequences, FiniteSets, TLC, Json
 
-CONSTANTS MaxLen, Mode      \* "vmap" | "scan" | "grad" | "alias"
+CONSTANTS MaxLen, Mode      \* "vmap" | "scan" | "grad" | "alias" | "carry2"
 VARIABLE case
 
 Axes == {0, 1, -1, -2}
@@ -27,7 +27,14 @@ GradCases == {[wrt |-> w, argx |-> ax, aux |-> a, vag |-> v, x |-> x]
 \* the same object passed as two arguments with axis specifications s1, s2 (9 = None): accepted iff they agree
 AliasCases == {[s1 |-> a, s2 |-> b, tr |-> t] : a \in {0, 1, 9}, b \in {0, 1, 9}, t \in {"vmap", "scan"}}
 
-Init == case \in (CASE Mode = "vmap" -> VmapCases [] Mode = "scan" -> ScanCases [] Mode = "grad" -> GradCases [] OTHER -> AliasCases)
+\* nnx.scan whose Carry argument holds several graph nodes: k modules (objects of one class) travel in the carry, step j adds
+\* i * x[j] to the i-th module's Variable; at the end the caller's *own* i-th object holds v0(i) + i * sum(xs)
+Carry2Cases == {[n |-> n, rev |-> r, k |-> k, nest |-> ne] : n \in 1..MaxLen, r \in BOOLEAN, k \in 2..3, ne \in {"tuple", "dict", "list"}}
+RECURSIVE SumX(_)
+SumX(n) == IF n = 0 THEN 0 ELSE n + SumX(n - 1)          \* xs = 1, 2, ..., n
+Carry2Final(c) == [i \in 1..c.k |-> 100 * i + i * SumX(c.n)]
+Init == case \in (CASE Mode = "vmap" -> VmapCases [] Mode = "scan" -> ScanCases [] Mode = "grad" -> GradCases [] Mode = "carry2" -> Carry2Cases
+                    [] OTHER -> AliasCases)
 Next == UNCHANGED case
 
 X(i) == i + 1
@@ -60,5 +67,6 @@ Export ==
     [] Mode = "grad" ->
          PrintT(<<"EXPORT", ToJson([cfg |-> case, sel |-> Selected(case), gw |-> GW(case), gq |-> GQ(case), gx |-> GX(case),
                                     loss |-> L(case), cnt |-> 1])>>)
+    [] Mode = "carry2" -> PrintT(<<"EXPORT", ToJson([cfg |-> case, final |-> Carry2Final(case)])>>)
     [] OTHER -> PrintT(<<"EXPORT", ToJson([cfg |-> case, accepted |-> case.s1 = case.s2])>>)
 =============================================================================
